@@ -58,6 +58,7 @@ type AbsfsNFS struct {
 	metrics          *MetricsCollector       // Metrics collection and reporting
 	rateLimiter      *RateLimiter            // Rate limiter for DoS protection
 	exportServer     *Server                 // Server created by Export(), nil if not exported
+	exportMu         sync.Mutex              // guards exportServer (Close/Unexport may be called concurrently)
 	exclusiveVerf    sync.Map                // path -> [8]byte verifier of the EXCLUSIVE CREATE that made the file
 
 	// Options are stored as immutable snapshots behind atomic pointers.
